@@ -1,6 +1,7 @@
 package main
 
 import (
+	"sort"
 	"fmt"
 	"go/token"
 	"go/types"
@@ -439,10 +440,28 @@ func checkN1(c *Ctx, pr *prioRoles) {
 }
 
 // checkN1b: the interrupter ticker keeps ticking while the scheduler runs.
-func checkN1b(c *Ctx, pr *prioRoles) {
+func checkN1b(c *Ctx, pr *prioRoles) { checkN1bAs(c, pr, "N1") }
+
+func checkN1bAs(c *Ctx, pr *prioRoles, rule string) {
 	p := pr.p
 	n := 0
-	for _, fn := range pr.rt.Funcs {
+	// (also what the constructor runs before the goroutine starts: a ticker stopped there because
+	// no unbuffered input is configured yet is missing when one is added later)
+	fns := append([]*ssa.Function{}, pr.rt.Funcs...)
+	inRt := map[*ssa.Function]bool{}
+	for _, fn := range fns {
+		inRt[fn] = true
+	}
+	for _, ct := range pr.d.Ctors {
+		for g := range p.Reach(ct) {
+			if !inRt[g] {
+				inRt[g] = true
+				fns = append(fns, g)
+			}
+		}
+	}
+	sort.Slice(fns, func(i, j int) bool { return p.FnKey(fns[i]) < p.FnKey(fns[j]) })
+	for _, fn := range fns {
 		for _, b := range fn.Blocks {
 			for _, in := range b.Instrs {
 				call, ok := in.(ssa.CallInstruction)
@@ -466,11 +485,11 @@ func checkN1b(c *Ctx, pr *prioRoles) {
 					// in a clean-up helper that only runs as an unconditional defer of the entry
 					entries := map[*ssa.Function]*GoEntry{pr.rt.E.Entry: pr.rt.E}
 					if e := p.cleanupOnly(fn, entries, 0); e == pr.rt.E && name == "(*time.Ticker).Stop" {
-						c.R.Pass("N1", fmt.Sprintf("%s#interrupter.%d", p.FnKey(fn), n), p.InstrPos(in), "interrupter stopped only by the entry's deferred clean-up")
+						c.R.Pass(rule, fmt.Sprintf("%s#interrupter.%d", p.FnKey(fn), n), p.InstrPos(in), "interrupter stopped only by the entry's deferred clean-up")
 						continue
 					}
 				}
-				c.R.Check(isDefer && fn == pr.rt.E.Entry && name == "(*time.Ticker).Stop", "N1", fmt.Sprintf("%s#interrupter.%d", p.FnKey(fn), n), p.InstrPos(in), "interrupter stopped only by a defer of the goroutine entry",
+				c.R.Check(isDefer && fn == pr.rt.E.Entry && name == "(*time.Ticker).Stop", rule, fmt.Sprintf("%s#interrupter.%d", p.FnKey(fn), n), p.InstrPos(in), "interrupter stopped only by a defer of the goroutine entry",
 					"the interrupter ticker is stopped or re-armed while the scheduler runs: the bounded-ticks exit of the unbuffered-input receive never fires and an empty open input blocks the round")
 			}
 		}
@@ -755,6 +774,10 @@ func runC17(c *Ctx) {
 		r.Funcs[p.FnKey(fn)] = true
 	}
 	d := pr.d
+	// R6 (= N1 ticker): whatever the inputs were at construction, an unbuffered input can be added
+	// later, and reading it relies on the interrupter ticking
+	r.Doc("R6", "(= N1) the interrupter ticks for the whole life of the discipline: stopped only by the entry's deferred clean-up, never by the constructor", 1)
+	checkN1bAs(c, pr, "R6")
 	// R1
 	for _, f := range []string{"inputAdds", "inputRmvs"} {
 		capc := p.chanCapacityConst(d, f)
